@@ -116,8 +116,12 @@ def detour(
       raise TypeError(
           f'Detour destination {dest!r} is not a class or a function.')
 
+  # NOTE: the scope is entered before the `try` block, so a failure on entering
+  # (e.g. a source class whose `__new__` cannot be replaced) does not leave the
+  # enclosing scope.
+  resolved_mappings = _global_detour_context.enter_scope(mappings)
   try:
-    yield _global_detour_context.enter_scope(mappings)
+    yield resolved_mappings
   finally:
     _global_detour_context.leave_scope()
 
